@@ -169,6 +169,9 @@ def judge_push(pm):
     return 'undecided', 'key Range::new(%s, %s) is not in a recognised form' % (A, B), t
 
 
+_PP_FNS = [{}]
+
+
 def judge_merge(mm):
     opn = [sx.pat_idents(p_['pat'])[0] for p_ in mm['sig']['params'] if p_.get('k') == 'typed']
     oth = opn[0] if opn else 'other'
@@ -209,7 +212,36 @@ def judge_merge(mm):
     if (kv in shifted) != (('%s.range' % ov) in shifted):
         return 'wrong', 'only one of key / Origin.range is shifted (%s)' % sorted(shifted)
     if not shifted:
-        return 'wrong', 'the included entries are not shifted at all'
+        args_ = ins[0]['args'] if len(ins) == 1 else []
+        if [sq(x) for x in args_] == [kv, ov]:
+            return 'wrong', 'the included entries are not shifted at all'
+        # shifting delegated to private helpers: helper(value, shift) whose body offsets its first parameter (or its .range) by its second
+
+        def helper_shifts(e, want_range, depth=0):
+            if not (sx.is_call(e) and e['f']['p'] in _PP_FNS[0] and len(e['args']) == 2 and depth < 3):
+                return None
+            h = _PP_FNS[0][e['f']['p']]
+            ps = [sx.pat_idents(q['pat'])[0] for q in h['sig']['params'] if q.get('k') == 'typed']
+            if len(ps) != 2:
+                return None
+            for n in sx.walk(h['body']):
+                if n.get('k') == 'mcall' and n['m'] == 'offset' and len(n['args']) == 1 and sq(n['args'][0]) == ps[1]:
+                    if sq(n['recv']) in ((ps[0] + '.range',) if want_range else (ps[0],)):
+                        return sq(e['args'][1])
+                if sx.is_call(n) and n['f']['p'] in _PP_FNS[0] and len(n['args']) == 2 and sq(n['args'][1]) == ps[1]:
+                    a0 = sq(n['args'][0])
+                    if a0 == (ps[0] + '.range' if want_range else ps[0]) and helper_shifts(n, False, depth + 1) is not None:
+                        return sq(e['args'][1])
+            return None
+        if len(args_) == 2:
+            s1 = helper_shifts(args_[0], False) if sq(sx.strip_ref(args_[0]['args'][0]) if sx.is_call(args_[0]) and args_[0]['args'] else {}) == kv else None
+            s2 = helper_shifts(args_[1], True) if sq(sx.strip_ref(args_[1]['args'][0]) if sx.is_call(args_[1]) and args_[1]['args'] else {}) == ov else None
+            if s1 is not None and s2 is not None:
+                if s1 in after or s2 in after:
+                    return 'wrong', 'entries are shifted by the text length AFTER the append'
+                if s1 in before and s2 in before:
+                    return 'ok', 'keys and origin ranges shifted by %s through helpers' % sorted({s1, s2})
+        return 'undecided', 'how the included entries are shifted is not recognised'
     return 'undecided', 'shift pattern %s not recognised' % shifted
 
 
@@ -435,6 +467,7 @@ def x1_x3(ctx):
                                 {'arm': akey, 'text': sx.render(call['args'][0])})
         mm = writers.get('merge')
         if mm:
+            _PP_FNS[0] = pp.fns
             verdict, why = judge_merge(mm)
             r3.inst('merge-rebases', {'verdict': verdict, 'why': why})
             if verdict == 'wrong':
